@@ -32,7 +32,8 @@ class _Crash(BaseException):
 
 
 class World:
-    def __init__(self, root, paths=('p1', 'p2'), dirs=('d1', 'd2'), init_content='a'):
+    def __init__(self, root, paths=('p1', 'p2'), dirs=('d1', 'd2'), init_content='a', size_trigger=None):
+        self.size_trigger = size_trigger
         self.root = root
         shutil.rmtree(root, ignore_errors=True)
         os.makedirs(root)
@@ -75,6 +76,10 @@ class World:
         world = self
         real_os = os
         self._saved = (pcache.os, getattr(pcache, 'open', None), pcache.time)
+        self._saved_trigger = pcache._CACHED_SIZE_TRIGGER
+        if self.size_trigger:
+            # make the size-triggered eviction of _set_cache_item run in small histories (it is a module setting)
+            pcache._CACHED_SIZE_TRIGGER = self.size_trigger
 
         class PathShim:
             def __getattr__(self, name):
@@ -108,6 +113,7 @@ class World:
 
     def uninstall(self):
         pcache.os, op, pcache.time = self._saved
+        pcache._CACHED_SIZE_TRIGGER = self._saved_trigger
         if op is None:
             try:
                 del pcache.open
@@ -331,9 +337,9 @@ class _TornFile:
         return getattr(self.f, name)
 
 
-def replay(root, hist):
+def replay(root, hist, size_trigger=None):
     """execute one Cache-spec history; returns (A-level events, drift messages)"""
-    w = World(root)
+    w = World(root, size_trigger=size_trigger)
     try:
         for act in hist:
             w.do(act)
